@@ -28,7 +28,7 @@ TECHNIQUE = (
 RULE = (
     "case = one regular video format (base video format x frame size class {1 unit, small, medium, straddling the "
     "sprite} x 4:4:4/4:2:2/4:2:0 x progressive/interlaced x field order x frames/fields x signal range {8 presets | "
-    "custom luma/chroma depths 1-32 quick / 1-63 thorough with excursion min/max/random and offset 0/mid/max/random} x "
+    "custom luma/chroma depths 1-32 (one format in ten: 1-63) quick / 1-63 thorough with excursion min/max/random and offset 0/mid/max/random} x "
     "all 150 primaries/matrix/transfer-function combinations x preset pixel aspect ratios), evaluated once per "
     "generator (moving_sprite, static_sprite, mid_gray, white_noise, linear_ramps, real_pictures on the repository's "
     "tiny test images); distinct = distinct (video parameters, coding mode, generator, generator arguments); no case is "
@@ -73,7 +73,11 @@ def cases(spec, ctx):
     # base format and colour combination walk systematically with the index,
     # rotated by the seed so that different seeds pair them with other draws
     for i in range(spec["shard"], spec["total"], spec["nshards"]):
-        yield {"index": i + 7 * ctx.seed, "fseed": "%s/C22/%d" % (ctx.seed, i), "max_depth": spec["max_depth"]}
+        md = spec["max_depth"]
+        if md < 63 and i % 10 == 0:
+            # one format in ten of the quick tier also draws depths up to 63 (float64 stops being exact above 53 bits)
+            md = 63
+        yield {"index": i + 7 * ctx.seed, "fseed": "%s/C22/%d" % (ctx.seed, i), "max_depth": md}
 
 
 def setup(ctx):
